@@ -6,6 +6,7 @@
 //   ecef.rt   a b lat lon h   → X Y Z lat' lon' h'   (toWGS84 applied to the exact output of toECEF)
 //   ecef.rti  a b X Y Z       → lat lon h X' Y' Z'   (toECEF applied to the exact output of toWGS84)
 // A loop that never exits is turned into the outcome `hang` by proto.hpp's watchdog.
+#include <memory>
 #include "proto.hpp"
 #include "romea_core_common/geodesy/ECEFConverter.hpp"
 #include "romea_core_common/geodesy/EarthEllipsoid.hpp"
@@ -29,7 +30,10 @@ static GeodeticCoordinates geo(double lat, double lon, double h)
   GeodeticCoordinates g; g.latitude = lat; g.longitude = lon; g.altitude = h; return g;
 }
 
-static void reset() {}
+// one converter object that persists across ops of a case (`ecef.use a b` ... `ecef.p*`): a converter is a pure function of
+// its ellipsoid, so anything it remembers between calls (result caches, "same as last time" shortcuts) shows up here
+static std::unique_ptr<ECEFConverter> persistent;
+static void reset() { persistent.reset(); }
 
 static std::string handle(const Toks & t)
 {
@@ -53,6 +57,24 @@ static std::string handle(const Toks & t)
       return fmtV(p) + " " + fmtG(conv.toWGS84(p));
     }
     GeodeticCoordinates g = conv.toWGS84(Eigen::Vector3d(v[2], v[3], v[4]));
+    return fmtG(g) + " " + fmtV(conv.toECEF(g));
+  }
+  if (op == "ecef.use" && t.size() == 3) {
+    persistent.reset(new ECEFConverter(EarthEllipsoid(vp::parseD(t[1]), vp::parseD(t[2]))));
+    return "ok";
+  }
+  if ((op == "ecef.pfwd" || op == "ecef.pinv" || op == "ecef.prt" || op == "ecef.prti") && t.size() == 4) {
+    if (!persistent) { throw vp::BadOp(); }
+    double v[3];
+    for (int i = 0; i < 3; ++i) { v[i] = vp::parseD(t[i + 1]); }
+    ECEFConverter & conv = *persistent;
+    if (op == "ecef.pfwd") { return fmtV(conv.toECEF(geo(v[0], v[1], v[2]))); }
+    if (op == "ecef.pinv") { return fmtG(conv.toWGS84(Eigen::Vector3d(v[0], v[1], v[2]))); }
+    if (op == "ecef.prt") {
+      Eigen::Vector3d p = conv.toECEF(geo(v[0], v[1], v[2]));
+      return fmtV(p) + " " + fmtG(conv.toWGS84(p));
+    }
+    GeodeticCoordinates g = conv.toWGS84(Eigen::Vector3d(v[0], v[1], v[2]));
     return fmtG(g) + " " + fmtV(conv.toECEF(g));
   }
   throw vp::BadOp();
